@@ -85,9 +85,19 @@ func vpH_c14_payload() {
 		}
 	}
 	w1, w2 := mk(), mk()
-	kind := vpInt(0, 21)
+	top := 21
+	if vpParam("verifyside") != 0 {
+		top = 22 // the config pairs do not depend on map orders: fixed-order configuration only
+	}
+	kind := vpInt(0, top)
 	collide := kind <= 3
 	switch kind {
+	case 22: // plugin config: nil and the empty containers are one value; every scalar (also a falsy one) is its own
+		configs := []any{nil, map[string]any{}, []any{}, false, 0, "", true, "x", 1.5, []any{false}, map[string]any{"k": nil}}
+		i, j := vpInt(0, len(configs)-1), vpInt(0, len(configs)-1)
+		vpAssume(i < j)
+		w1.step.Plugins[0].Config, w2.step.Plugins[0].Config = configs[i], configs[j]
+		collide = j <= 2
 	case 0: // same content, other insertion orders
 		w2.step.Env = map[string]string{"B": "b", "A": ev}
 		w2.step.Plugins[0].Config = map[string]any{"l": []any{1, "s"}, "k": cv}
